@@ -81,6 +81,19 @@ static void sequences(void) {
   set(a, $I(0), $I(4242)); set(l, $I(-1), $I(-4242));
   OUT("get a[0]=%" PRId64 " a[-1]=%" PRId64 " l[-1]=%" PRId64 " mem=%d %d", c_int(get(a, $I(0))), c_int(get(a, $I(-1))), c_int(get(l, $I(-1))), (int)mem(a, $I(4242)), (int)mem(l, $I(123456)));
   rem(a, $I(4242)); resize(c, 3); out_seq("after rem / resize", c);
+  /* the ends of the valid index ranges: push_at at len and at -1 (both append), get / set / pop_at at len-1 and -len,
+     push_at(0) into an emptied Array and an empty List */
+  {
+    var e = new(Array, Int), el = new(List, Int);
+    push_at(e, $I(1), $I(0)); push_at(e, $I(2), $I((int64_t)len(e))); push_at(e, $I(3), $I(-1)); push_at(e, $I(0), $I(0));
+    push_at(el, $I(1), $I(0)); push_at(el, $I(2), $I((int64_t)len(el) - 1));
+    out_seq("array built at its ends", e); out_seq("list built at its ends", el);
+    OUT("ends: %" PRId64 " %" PRId64 " %" PRId64 " %" PRId64, c_int(get(e, $I((int64_t)len(e) - 1))), c_int(get(e, $I(-(int64_t)len(e)))), c_int(get(el, $I(-(int64_t)len(el)))), c_int(get(el, $I((int64_t)len(el) - 1))));
+    set(e, $I((int64_t)len(e) - 1), $I(30)); set(e, $I(-(int64_t)len(e)), $I(-30)); pop_at(e, $I(-(int64_t)len(e))); pop_at(e, $I((int64_t)len(e) - 1));
+    resize(e, 0); push_at(e, $I(9), $I(0)); push_at(a, $I(77), $I((int64_t)len(a))); push_at(a, $I(78), $I(-1));
+    out_seq("array after end operations", e);
+    del(e); del(el);
+  }
   var fl = new(Array, Float);
   for (int i = 0; i < 6; i++) { push(fl, $F((double)(below(2000) - 1000) / 8.0)); }
   sort(fl); out_seq("floats sorted", fl);
